@@ -23,7 +23,7 @@ CHECKS = {
             "Trusted base as C01 without the reference semantics (the obligation only uses the program's own language). One-directional: Sometimes/Never are not constrained.",
             "5 C09"),
     "C10": ("relang+kani", TV, "SMT regular-language inclusion: matched canonical paths vs. the language of paths with lo..hi components, per program",
-            "For every glob / combinator z3 decides that every canonical path of the pattern's rootedness it matches has a component count inside the reported depth variance; witnesses replayed through the real is_match. Engine B: the range algebra those numbers come from is model checked sound (x in a, y in b => x+y in a(+)b; union contains both; products against a constant table of repetition ranges; opened bounds widen) for all operands below 2^62.",
+            "For every glob / combinator z3 decides that every canonical path of the pattern's rootedness it matches has a component count inside the reported depth variance; witnesses replayed through the real is_match. Engine B: the range algebra those numbers come from is model checked sound (x in a, y in b => x+y in a(+)b; union contains both; products against a constant table of repetition ranges; opened bounds widen) for all operands below 2^62, and the termination table (concatenation + finalize of separator-count terms yields the number of components, for all well-formed pairs of the non-coalescent terminations).",
             "Trusted base as C09. Root not counted as a component; empty path excluded (no components).",
             "5 C10"),
     "C11": ("relang", TV, "SMT regular-language emptiness (z3 seq/re theory) on the pattern compiled by the real code, per program, for all paths",
@@ -38,7 +38,7 @@ CHECKS = {
 
 CHECKS.update({
     "C13": ("kani", MC, "bounded model checking (Kani/CBMC) of one inductive step of the real combinator code from an arbitrary pre-state, with environment stubs",
-            "The real Separation algebra, FilterEntry::feed, Not::feed (stacks of 1-3 in every order, negation verdict stubbed arbitrary) and WalkTree::{next, cancel_walk_tree} (walkdir stubbed) are model checked for one step from every pre-state and verdict: the traversal is cancelled exactly once iff the entry becomes a discarded tree in this step, and skip_current_dir is issued iff the last yielded item is a directory. Failures are reproduced on a real directory tree through the public API before being reported.",
+            "The real Separation algebra, FilterEntry::feed, Not::feed (stacks of 1-3 in every order, negation verdict stubbed arbitrary) and WalkTree::{next, cancel_walk_tree} (walkdir stubbed) are model checked for one step from every pre-state and verdict: the traversal is cancelled exactly once iff the entry becomes a discarded tree in this step, and skip_current_dir is issued iff the last yielded item is a directory; the negation verdict step (a tree verdict iff the exhaustive partition program matched) and the glob walker's closure rows serve this property too. Failures are reproduced on a real directory tree through the public API before being reported.",
             "Lifts to whole walks by induction over yielded entries under the stated walkdir 2.5 contract (skip_current_dir right after a directory removes exactly its subtree). Root-is-a-symlink corner and walkdir itself are outside the claim. Trusted: Kani/CBMC, stubs, DirEntry mirror.",
             "5 C13"),
     "C15": ("kani", MC, "bounded model checking (Kani/CBMC), full 64-bit width, of the real depth translation and walk configuration code",
@@ -163,7 +163,7 @@ def main():
         ],
         "checks": checks,
         "not_applicable": na,
-        "notes": "All checks decide by solver verdict (z3 over RegLan terms derived from the real compiled patterns; CBMC via Kani over the real Rust code). Exit 2 = inconclusive (never on the unchanged tree in normal conditions). See DESIGN.md.",
+        "notes": "All checks decide by solver verdict (z3 over RegLan terms derived from the real compiled patterns; CBMC via Kani over the real Rust code). Exit 2 = inconclusive (never on the unchanged tree in normal conditions). Known findings: known_findings.json (roles, fixed entries) + known_inputs/<finding>.jsonl (the failing inputs of the deterministic program set, DESIGN 11.6); neither is written at run time. See DESIGN.md.",
     }
     with open(os.path.join(HERE, "MANIFEST.json"), "w") as f:
         json.dump(manifest, f, indent=1)
